@@ -179,7 +179,8 @@ def check_run(case, res, counters):
     # an emit whose only failures were (a) carried by the future of a coroutine-style update() and
     # (b) hit a piece that carried no metadata (non-last piece of a flatten): the mechanism of the
     # known finding "flatten attaches the counter to the last piece only"
-    deferred_mdless = {}       # emit index -> True iff no failing data carried any metadata
+    # dicts that accompanied some failing data (by emit index)
+    carried = {}
     last_in2 = {}
     cur = None
     for e in log.ev:
@@ -190,10 +191,9 @@ def check_run(case, res, counters):
         elif (e[2] == 'RAISED' and isinstance(e[6], F.InjectedFault)) or \
                 (e[2] == 'ACCEPTED' and isinstance(e[5], F.InjectedFault)):
             md = last_in2.get((e[3], id(e[5] if e[2] == 'RAISED' else e[4])))
-            if md:
-                deferred_mdless[cur] = False
-            else:
-                deferred_mdless.setdefault(cur, True)
+            for d in (md or []):
+                if isinstance(d, dict):
+                    carried.setdefault(cur, set()).add(id(d))
     elem_emit = {}
     for i in raised_in_emit:
         for d in res.mds[i]:
@@ -203,7 +203,7 @@ def check_run(case, res, counters):
         if did in failed_dicts:
             counters['failed_element_signal_checks'] = counters.get('failed_element_signal_checks', 0) + 1
             if ref.triggers:
-                if deferred_mdless.get(elem_emit.get(did)) and any(sp['op'] == 'flatten' for sp in prog['nodes']):
+                if did not in carried.get(elem_emit.get(did), set()) and any(sp['op'] == 'flatten' for sp in prog['nodes']):
                     add('C16:failed-element-signalled:deferred-failure-of-metadata-less-flatten-piece',
                         'element %s: a non-last piece produced by flatten (which carries no metadata) failed inside a '
                         'coroutine-style node, the failure was carried by a future, the last piece went through and '
